@@ -56,9 +56,9 @@ func (o MOp) String() string {
 type RecWriter struct {
 	Buf      []byte
 	Writes   int
-	FailAt   int  // index of the Write call that fails (-1 = never)
-	Perm     bool // permanent failure from FailAt on
-	Partial  bool // a failing Write accepts the first half of its bytes before failing (n > 0 with an error)
+	FailAt   int         // index of the Write call that fails (-1 = never)
+	Perm     bool        // permanent failure from FailAt on
+	Partial  bool        // a failing Write accepts the first half of its bytes before failing (n > 0 with an error)
 	OnWrite  func(i int) // called at the start of every Write (the writer looks at the caller's buffers while the Muxer is inside a call)
 	FailErr  error
 	Accepted int // bytes accepted in total
@@ -228,6 +228,9 @@ func MakeAF(kind string, idx int) *astits.PacketAdaptationField {
 		return &astits.PacketAdaptationField{HasOPCR: true, OPCR: cr(int64(idx)*7+0x1_0000_0001, 0x1ff), HasSplicingCountdown: true, SpliceCountdown: 0xfd, DiscontinuityIndicator: true} // 0xfd: the form the parser returns for a negative countdown
 	case "splice":
 		return &astits.PacketAdaptationField{HasSplicingCountdown: true, SpliceCountdown: 5, ElementaryStreamPriorityIndicator: true}
+	case "extltw": // legal time window present but flagged not valid (the offset is carried all the same), nothing else
+		return &astits.PacketAdaptationField{HasAdaptationExtensionField: true, AdaptationExtensionField: &astits.PacketAdaptationExtensionField{
+			HasLegalTimeWindow: true, LegalTimeWindowIsValid: false, LegalTimeWindowOffset: 0x2345}}
 	case "ext":
 		return &astits.PacketAdaptationField{HasAdaptationExtensionField: true, AdaptationExtensionField: &astits.PacketAdaptationExtensionField{
 			HasLegalTimeWindow: true, LegalTimeWindowIsValid: true, LegalTimeWindowOffset: 0x1234,
